@@ -413,5 +413,5 @@ func c13rGen(rt *rapid.T) c13rCase {
 }
 
 func TestVerif_C13_race(t *testing.T) {
-	kit.Run(t, "C13", "parallel", kit.Opts{Quick: 150, Thorough: 4800}, c13rGen, c13rInterp)
+	kit.Run(t, "C13", "parallel", kit.Opts{Quick: 150, Thorough: 3200}, c13rGen, c13rInterp)
 }
